@@ -659,6 +659,12 @@ static int fix_names (
 		{
 			sprintf (buf, "%d", i);
 		}
+		/* ... and a column called "free" right after another column's bound
+		 * for the keyword that makes that column free */
+		if (pref == 'x' && !ILLutil_strcasecmp (buf, "free"))
+		{
+			sprintf (buf, "%d", i);
+		}
 
 		if (!EGLPNUM_TYPENAME_ILLis_lp_name_char (buf[0], 0))
 		{
